@@ -77,6 +77,9 @@ def fresh_model(D, order=None):
 
 
 # ---------------------------------------------------------------------------------------------------
+SIMS = {}       # simulator objects shared by the direct runs of one case (cleared at the start of every case)
+
+
 def run_sim(mode, grid, seed, M=None, I=None, vol=2.0):
     """Outcome of one simulation: ("ok", {column: array}) or ("raise", type name, message)."""
     from bioscrape.simulator import (py_simulate_model, ModelCSimInterface, SSASimulator, DeterministicSimulator)
@@ -89,11 +92,13 @@ def run_sim(mode, grid, seed, M=None, I=None, vol=2.0):
             if mode in ("ssa_direct", "det_direct") and I is None:
                 itf = ModelCSimInterface(M)
                 itf.py_set_dt(tp[1] - tp[0])
+                # one simulator object serves every direct run of a case - the model at each stage of its history, the
+                # models built at once, the permuted builds: a simulator holds no state of the systems it ran before
                 if mode == "ssa_direct":
-                    res = SSASimulator().py_simulate(itf, tp)
+                    res = SIMS.setdefault("ssa", SSASimulator()).py_simulate(itf, tp)
                 else:
                     itf.py_prep_deterministic_simulation()
-                    res = DeterministicSimulator().py_simulate(itf, tp)
+                    res = SIMS.setdefault("det", DeterministicSimulator()).py_simulate(itf, tp)
                 arr = np.array(res.py_get_result(), dtype=float)
                 s2i = M.get_species2index()
                 out = {s: arr[:, i].copy() for s, i in s2i.items()}
@@ -305,6 +310,7 @@ def check(case):
 
 
 def _check(case):
+    SIMS.clear()
     from bioscrape.types import Model
     from bioscrape.simulator import ModelCSimInterface, SafeModelCSimInterface
     from bioscrape.random import py_seed_random
